@@ -60,6 +60,21 @@ type staticPartReader struct{ r *ring.PartitionRing }
 
 func (s staticPartReader) PartitionRing() *ring.PartitionRing { return s.r }
 
+// switchingPartReader is a watcher whose ring is replaced while a caller is using it: the first call sees
+// the older snapshot, every later call the newer one.
+type switchingPartReader struct {
+	old, cur *ring.PartitionRing
+	calls    int
+}
+
+func (s *switchingPartReader) PartitionRing() *ring.PartitionRing {
+	s.calls++
+	if s.calls == 1 {
+		return s.old
+	}
+	return s.cur
+}
+
 type partWorld struct {
 	*world
 	prop      string
@@ -70,6 +85,8 @@ type partWorld struct {
 	unixBase  int64
 
 	shardHist   map[string][]partShardRecord
+	prevPR      *ring.PartitionRing
+	prevPRDesc  *ring.PartitionRingDesc
 	prevActive  map[int32]bool
 	prevShards  map[string][]int32
 	routingHard bool
@@ -691,26 +708,59 @@ func (pw *partWorld) checkReplicationSets(pr *ring.PartitionRing, d *ring.Partit
 		var sets []ring.ReplicationSet
 		var err error
 		pw.try("GetReplicationSetsForOperation", func() { sets, err = pir.GetReplicationSetsForOperation(op.op) })
-		var want []string
-		wantErr := len(d.Partitions) == 0
-		for pid := range d.Partitions {
-			var ids []string
-			zones := map[string]bool{}
-			for _, oid := range oids {
-				if d.Owners[oid].OwnedPartition != pid {
-					continue
-				}
-				if e, ok := healthy(oid); ok {
-					ids = append(ids, oid)
-					zones[e.Zone] = true
-				}
+		expect := func(d *ring.PartitionRingDesc) (want []string, wantErr bool) {
+			wantErr = len(d.Partitions) == 0
+			var all []string
+			for id := range d.Owners {
+				all = append(all, id)
 			}
-			if len(ids) == 0 {
-				wantErr = true
+			sort.Strings(all)
+			for pid := range d.Partitions {
+				var ids []string
+				zones := map[string]bool{}
+				for _, oid := range all {
+					if d.Owners[oid].OwnedPartition != pid {
+						continue
+					}
+					if e, ok := healthy(oid); ok {
+						ids = append(ids, oid)
+						zones[e.Zone] = true
+					}
+				}
+				if len(ids) == 0 {
+					wantErr = true
+				}
+				want = append(want, fmt.Sprintf("%v/%d", ids, len(zones)-1))
 			}
-			want = append(want, fmt.Sprintf("%v/%d", ids, len(zones)-1))
+			sort.Strings(want)
+			return
 		}
-		sort.Strings(want)
+		render := func(sets []ring.ReplicationSet) string {
+			var got []string
+			for _, rs := range sets {
+				got = append(got, fmt.Sprintf("%v/%d", idsOf(rs), rs.MaxUnavailableZones))
+			}
+			sort.Strings(got)
+			return fmt.Sprint(got)
+		}
+		want, wantErr := expect(d)
+		// the ring is replaced (by the watcher) while a caller computes the sets: the answer describes one snapshot
+		if pw.prevPR != nil {
+			sw := &switchingPartReader{old: pw.prevPR, cur: pr}
+			var sets2 []ring.ReplicationSet
+			var err2 error
+			pw.try("GetReplicationSetsForOperation", func() {
+				sets2, err2 = ring.NewPartitionInstanceRing(sw, inst, pw.hbTimeout).GetReplicationSetsForOperation(op.op)
+			})
+			wantOld, wantOldErr := expect(pw.prevPRDesc)
+			okOld := wantOldErr == (err2 != nil) && (err2 != nil || render(sets2) == fmt.Sprint(wantOld))
+			okNew := wantErr == (err2 != nil) && (err2 != nil || render(sets2) == fmt.Sprint(want))
+			s.ProbeN("replication-sets-across-ring-replacement", 1)
+			if !okOld && !okNew {
+				s.Fail("partition-replication-set-mismatch", "mixed-snapshots", "GetReplicationSetsForOperation(%s) while the partition ring was replaced returned %s / %v, which describes neither the ring before (%v, error=%v: %s) nor the ring after (%v, error=%v: %s)", op.name, render(sets2), err2, wantOld, wantOldErr, fmtPartDesc(pw.prevPRDesc), want, wantErr, fmtPartDesc(d))
+			}
+		}
+		pw.prevPR, pw.prevPRDesc = pr, d
 		s.ProbeN("replication-sets-compared", 1)
 		if wantErr != (err != nil) {
 			s.Fail("partition-replication-set-mismatch", "error", "GetReplicationSetsForOperation(%s) error=%v, expected error=%v; ring: %s; instances: %v", op.name, err, wantErr, fmtPartDesc(d), inst.m)
